@@ -21,10 +21,14 @@ EXTENDS Naturals, FiniteSets, Sequences, TLC
 
 CONSTANTS Subs,                \* submitter ids, e.g. {1, 2}
           RegisterBeforeInit,  \* design variant
-          Streaming            \* subset of Subs issuing streaming commands (FETCH, LIST, EXPUNGE): the reader
+          Streaming,           \* subset of Subs issuing streaming commands (FETCH, LIST, EXPUNGE): the reader
                                \* looks the command up under the mutex and sends the data on its channel afterwards
+          Literal,             \* subset of Subs issuing a command with a synchronising literal (APPEND, a string
+                               \* that cannot be quoted): the submitter keeps encMutex while it waits for "+"
+          ReleaseOnRefusal     \* design variant: encMutex is released when the literal is refused or the
+                               \* connection is lost during the wait (TRUE in go-imap; FALSE is the guard variant)
 
-VARIABLES pc,        \* [Subs -> "idle" | "init" | "write" | "wait" | "done" | "stuck"]
+VARIABLES pc,        \* [Subs -> "idle" | "init" | "write" | "cont" | "wait" | "done" | "stuck"]
           registered,\* pendingCmds: sequence of commands, in registration order
           inited,    \* set of commands whose tag/done are set
           sent,      \* set of commands the server has received
@@ -71,13 +75,29 @@ Initialise(s) ==
 Write(s) ==
   /\ pc[s] = "write"
   /\ IF conn = "open"
-     THEN /\ sent' = sent \cup {s} /\ pc' = [pc EXCEPT ![s] = "wait"] /\ closer' = closer /\ registered' = registered
-          /\ enc' = 0
+     THEN /\ sent' = sent \cup {s} /\ closer' = closer /\ registered' = registered
+          \* a synchronising literal: the command line is out, encMutex stays with s until "+" or a refusal
+          /\ IF s \in Literal THEN pc' = [pc EXCEPT ![s] = "cont"] /\ enc' = enc
+                              ELSE pc' = [pc EXCEPT ![s] = "wait"] /\ enc' = 0
      ELSE /\ enc' = enc      \* flush failed: closeWithError runs inside end(), encMutex still held
           /\ sent' = sent /\ pc' = [pc EXCEPT ![s] = "wait"]
           /\ closer' = [closer EXCEPT ![s] = [st |-> "swapped", take |-> registered]]
           /\ registered' = <<>>
   /\ UNCHANGED <<inited, ncomp, conn, reader, race, found, panicked>>
+
+\* the server sends the continuation request: the literal and the rest of the command are written
+ContGo(s) ==
+  /\ pc[s] = "cont" /\ conn = "open" /\ InSeq(s, registered) /\ reader = "run"
+  /\ pc' = [pc EXCEPT ![s] = "wait"] /\ enc' = 0
+  /\ UNCHANGED <<registered, inited, sent, ncomp, conn, closer, reader, race, found, panicked>>
+
+\* the command was completed while s waited for "+" (tagged refusal, or connection lost): the wait is
+\* abandoned, no octet is sent, and the encoder must be given back
+ContFail(s) ==
+  /\ pc[s] = "cont" /\ ncomp[s] >= 1
+  /\ pc' = [pc EXCEPT ![s] = "wait"]
+  /\ enc' = IF ReleaseOnRefusal THEN 0 ELSE enc
+  /\ UNCHANGED <<registered, inited, sent, ncomp, conn, closer, reader, race, found, panicked>>
 
 \* Wait returns once the command has been completed
 Wait(s) ==
@@ -143,7 +163,7 @@ CloseDone(p) ==
   /\ UNCHANGED <<pc, registered, inited, sent, ncomp, conn, race, found, panicked>>
 
 Next ==
-  \/ \E s \in Subs : Register(s) \/ Initialise(s) \/ Write(s) \/ Wait(s) \/ Answer(s)
+  \/ \E s \in Subs : Register(s) \/ Initialise(s) \/ Write(s) \/ ContGo(s) \/ ContFail(s) \/ Wait(s) \/ Answer(s)
   \/ Lose \/ ReaderSwap \/ DeliverSend
   \/ \E c \in Subs : DeliverFind(c)
   \/ \E p \in Procs, c \in Subs : CloseComplete(p, c)
